@@ -165,7 +165,8 @@ func (e EmailVerify) End(w http.ResponseWriter, r *http.Request) error {
 
 	givenToken, _ := authboss.GetSession(r, authboss.Session2FAAuthToken)
 
-	if 1 != subtle.ConstantTimeCompare([]byte(wantToken), []byte(givenToken)) {
+	// Without a token in the session there is nothing that could be verified
+	if len(givenToken) == 0 || 1 != subtle.ConstantTimeCompare([]byte(wantToken), []byte(givenToken)) {
 		ro := authboss.RedirectOptions{
 			Code:         http.StatusTemporaryRedirect,
 			Failure:      e.Localizef(r.Context(), authboss.TxtInvalid2FAVerificationToken),
